@@ -248,6 +248,7 @@ static void state_stream_format(std::ostream &os, bool general)
   if (general) os.setf(std::ios::fmtflags(0), std::ios::floatfield);  // as colvarbias_histogram/abf::write_state_data
 }
 
+static int g_target_mask = 0;   // set by one_case(): see there
 static void fail(Ctx &c, int gc, int f, Shape const &s, int pat, std::string const &what, std::string const &extra)
 {
   std::string sig = std::string("C15:io:") + fmt_name[f] + ":" + gc_name[gc] + ":" + what;
@@ -263,7 +264,6 @@ static void fail(Ctx &c, int gc, int f, Shape const &s, int pat, std::string con
 // One round trip.  T = size_t for count grids, double otherwise.
 // target_mask: for the "other-shape" restart paths, the set of dimensions in which the fresh target grid differs from
 // the source (every non-empty subset is enumerated); 0 for the other paths.
-static int g_target_mask = 0;
 static void one_case(Ctx &c, Shape const &s, int gc, int f, int pat, int target_mask = 0)
 {
   g_target_mask = target_mask;
